@@ -54,6 +54,7 @@ REALS = [-2.5, -0.25, 0.0, 0.5, 0.75, 1.0, 1.5, 2.25, 3.0, 10.5]
 STRS = ["", "a", "ab", "b", "ba", "B", "a b", "abc", "z", "hello"]
 UNIVERSE = dict(int=INTS, real=REALS, str=STRS)
 NAMES = ["a", "b", "c", "d"]
+DBNAMES = ["T", "T", "T", "x", "k", "v", "df", "e", "t"]     # names of the table inside .db
 EXTRA = ["e", "f", "g"]
 
 
@@ -119,18 +120,20 @@ class Oracle:
         return len(set(keys)) == len(keys)
 
     def insert_rows(self, rs):
+        if self.idx is None:
+            self.rows.extend(list(r) for r in rs)
+            return
+        # key -> row map, kept sorted by key: the last row of a key wins (keys are unique here)
+        at = {self.key(q): i for i, q in enumerate(self.rows)}
         for r in rs:
             r = list(r)
-            if self.idx is None:
-                self.rows.append(r)
+            k = self.key(r)
+            if k in at:
+                self.rows[at[k]] = r
             else:
-                k = self.key(r)
-                hit = [i for i, q in enumerate(self.rows) if self.key(q) == k]
-                if hit:
-                    self.rows[hit[0]] = r
-                else:
-                    self.rows.append(r)
-                self.rows.sort(key=self.key)
+                at[k] = len(self.rows)
+                self.rows.append(r)
+        self.rows.sort(key=self.key)
 
     def apply(self, op):
         """expected reply in the model's notation (None: outside the modelled domain)"""
@@ -148,7 +151,7 @@ class Oracle:
             return "table"
         if kind in ("read", "sqlcol"):
             if op[1] not in self.cols:
-                return "undefined" if kind == "read" else "err"
+                return "undefined" if kind == "read" else None
             i = self.cols.index(op[1])
             return "col:" + row_s([r[i] for r in self.rows])
         if kind in ("count", "sqlcount"):
@@ -194,12 +197,16 @@ class Oracle:
 class RealTable:
     """one table `T` and a database `db` over it inside a real interpreter, driven by Klong text"""
 
-    def __init__(self, klong, cols, rows, early_db=True):
+    def __init__(self, klong, cols, rows, early_db=True, dbname="T", twin=False):
         self.klong = klong
+        self.dbname = dbname
+        self.twin = twin
         klong("e::[]")
         for i, c in enumerate(cols):
             klong('e::e,,"%s",,%s' % (c, klit([r[i] for r in rows])))
         klong("T::.table(e)")
+        if twin:
+            klong("U::.table(e)")     # a second table built from the same column list
         # the database over T is built either now (as the repo's tests do) or right before the
         # first SQL request; opening a duckdb connection is the slowest step of a history
         self.has_db = False
@@ -209,8 +216,20 @@ class RealTable:
 
     def ensure_db(self):
         if not self.has_db:
-            self.klong('db::.db(:{},"T",,T)')
+            self.klong('db::.db(:{},"%s",,T)' % self.dbname)
             self.has_db = True
+
+    def bystanders(self):
+        """what must never change when T is worked on: the column list T was built from and a
+        second table built from the same list"""
+        out = []
+        e = self.klong("e")
+        out.append("e=" + ";".join("%s:%s" % (str(p[0]), row_s(tolist(p[1]))) for p in e))
+        if self.twin:
+            u = copy.deepcopy(self.klong["U"])
+            df = u.get_dataframe()
+            out.append("U=" + ";".join("%s:%s" % (c, row_s(df[c].tolist())) for c in [str(c) for c in tolist(u.schema())]))
+        return " ".join(out)
 
     def program(self, op):
         kind = op[0]
@@ -225,7 +244,7 @@ class RealTable:
         if kind == "schema":
             return ".schema(T)"
         if kind == "dbschema":
-            return '.schema(db)?"T"'
+            return '.schema(db)?"%s"' % self.dbname
         if kind == "index":
             return ".index(T;%s)" % klit(op[1])
         if kind == "rindex":
@@ -233,11 +252,11 @@ class RealTable:
         if kind == "addcol":
             return 'T,"%s",,%s' % (op[1], klit(op[2]))
         if kind == "select":
-            return 'db("select * from T")'
+            return 'db("select * from %s")' % self.dbname
         if kind == "sqlcount":
-            return 'db("select count(*) from T")'
+            return 'db("select count(*) from %s")' % self.dbname
         if kind == "sqlcol":
-            return 'db("select %s from T")' % op[1]
+            return 'db("select %s from %s")' % (op[1], self.dbname)
         raise ValueError(kind)
 
     def ncols(self):
@@ -255,7 +274,7 @@ class RealTable:
                 self.ensure_db()
             r = self.klong(text)
         except KlongDbException as e:
-            return "err" if kind not in ("select", "sqlcount") else "raises:KlongDbException:" + str(e)[:80]
+            return "err" if kind not in SQL else "raises:KlongDbException:" + str(e)[:80]
         except Exception as e:
             if kind == "addcol" and isinstance(e, ValueError) and "does not match length" in str(e):
                 return "err"
@@ -297,6 +316,14 @@ class RealTable:
         return "cols=%s idx=%s content=%s" % (",".join(cols), idx, rows_s(rows))
 
 
+def _first_diff(a, b):
+    """`a`, cut around the first place where it differs from `b` (digests can be very long)"""
+    if len(a) < 3000:
+        return a
+    i = next((i for i, (x, y) in enumerate(zip(a, b)) if x != y), min(len(a), len(b)))
+    return "%s ...[%d chars]... %s" % (a[:200], i, a[max(0, i - 300):i + 300])
+
+
 def model_line(op):
     kind = op[0]
     if kind == "insert":
@@ -325,10 +352,18 @@ def model_line(op):
 COMMITTING = ("read", "count", "select", "sqlcount", "sqlcol", "index", "rindex", "addcol")
 
 
-def classify(op, pending, orc_before):
+SQL = ("select", "sqlcount", "sqlcol", "dbschema")
+
+
+def classify(op, pending, orc_before, dbname="T", got=""):
     """stable class name of a failing step: which operation, in which situation"""
     kind = op[0]
     ins = [r for p in pending for r in (p[1] if p[0] == "insertb" else [p[1]]) if len(r) == len(orc_before["cols"])]
+    if kind in SQL and dbname != "T" and got.startswith("raises"):
+        return "table:sql:table-name-collides-with-local"
+    for j in orc_before["intcols"]:
+        if any(isinstance(r[j], float) and r[j] != int(r[j]) for r in ins):
+            return "table:real-into-integer-column" + (":indexed" if orc_before["idx"] else "")
     if orc_before["idx"] and ins:
         pos = [orc_before["cols"].index(k) for k in orc_before["idx"]]
         keys = [tuple(r[i] for i in pos) for r in ins]
@@ -341,13 +376,26 @@ def classify(op, pending, orc_before):
     return "table:" + kind
 
 
-def run_history(ctx, klong, drv, cols, rows, ops, label, early_db=True):
+def _guard(f, *a):
+    """run a piece of real code / of decoding what it produced; an exception is a reply"""
+    try:
+        return f(*a)
+    except common.Infra:
+        raise
+    except Exception as e:
+        return "raises:%s:%s" % (type(e).__name__, str(e)[:80])
+
+
+def run_history(ctx, klong, drv, cols, rows, ops, label, early_db=True, dbname="T", twin=False):
     """one history on the real interpreter, the Lean machine and the list-of-rows oracle.
     Returns False when the history was cut short by a failure."""
-    case_head = dict(kind="table", label=label, cols=cols, rows=rows)
+    case_head = dict(kind="table", label=label, cols=cols, rows=rows, dbname=dbname, twin=twin)
     orc = Oracle(cols, rows)
+    by0 = "e=" + ";".join("%s:%s" % (c, row_s([r[i] for r in rows])) for i, c in enumerate(cols))
+    if twin:
+        by0 += " U=" + by0[2:]
     try:
-        real = RealTable(klong, cols, rows, early_db)
+        real = RealTable(klong, cols, rows, early_db, dbname, twin)
     except Exception as e:
         ctx.oracle_fail("table:create:raises:" + type(e).__name__, dict(case_head, ops=[]), "table created", repr(e))
         return False
@@ -356,34 +404,53 @@ def run_history(ctx, klong, drv, cols, rows, ops, label, early_db=True):
         if m != "ok " + orc.digest():
             ctx.mismatch("Klong.C19.create vs oracle", dict(case_head, ops=[]), m, "ok " + orc.digest())
             return False
-    d = real.digest()
+    d = _guard(real.digest)
     if d != orc.digest():
         ctx.oracle_fail("table:create", dict(case_head, ops=[]), orc.digest(), d, "table does not hold its columns")
         return False
     pending = []        # inserts since the last operation that reads rows
+    shared_reported = False
+    intcols = []
     for i, op in enumerate(ops):
         case = dict(case_head, ops=[list(o) for o in ops[:i + 1]], program=None)
-        before = dict(cols=list(orc.cols), idx=list(orc.idx) if orc.idx else None)
+        if not pending:      # integer columns of the frame as it was when the buffer was last empty
+            intcols = [j for j in range(len(orc.cols)) if orc.rows and all(isinstance(r[j], int) for r in orc.rows[:64])]
+        before = dict(cols=list(orc.cols), idx=list(orc.idx) if orc.idx else None, intcols=intcols)
         exp = orc.apply(op)
         if exp is None:          # generator bug: outside the property's domain
             raise common.Infra("C19 generator produced an operation outside the modelled domain: %r" % (op,))
         if op[0] in ("insert", "insertb"):
             pending.append(op)
-        got = real.apply(op)
-        case["program"] = list(real.trace)
-        key = classify(op, pending, before)
+        got = _guard(real.apply, op)
+        case["program"] = [t if len(t) < 400 else t[:200] + " ... " + t[-100:] for t in real.trace]
+        key = classify(op, pending, before, dbname, got)
+        last = case["program"][-1]
+        if got != exp and key == "table:sql:table-name-collides-with-local":
+            # the query failed on the table's name, the table itself was read (and flushed) as
+            # usual: report, keep the model in step and go on with the history
+            ctx.oracle_fail(key, case, exp[:4000], got[:4000], "reply of `%s`" % last)
+            if drv:
+                drv.ask(model_line(op))
+            pending = []
+            continue
         if got != exp:
-            ctx.oracle_fail(key, case, exp, got, "reply of `%s`" % real.trace[-1])
+            ctx.oracle_fail(key, case, exp[:4000], got[:4000], "reply of `%s`" % last)
             return False
-        d = real.digest()
+        d = _guard(real.digest)
         if d != orc.digest():
-            ctx.oracle_fail(key, case, orc.digest(), d, "content of the table after `%s`" % real.trace[-1])
+            ctx.oracle_fail(key, case, _first_diff(orc.digest(), d), _first_diff(d, orc.digest()),
+                            "content of the table after `%s`" % last)
             return False
+        by = _guard(real.bystanders)
+        if by != by0 and not shared_reported:
+            ctx.oracle_fail("table:storage-shared-with-source", case, by0, by,
+                            "the column list the table was built from / a second table built from it changed after `%s`" % last)
+            shared_reported = True       # T itself is still right: the history goes on
         if drv:
             m = drv.ask(model_line(op))
             impl = got + " " + d
             if m != impl:
-                ctx.mismatch("Klong.C19.step vs Table (%s)" % op[0], case, m, impl)
+                ctx.mismatch("Klong.C19.step vs Table (%s)" % op[0], case, _first_diff(m, impl), _first_diff(impl, m))
                 return False
         if op[0] in COMMITTING and not (op[0] == "index" and exp == "err") and not (op[0] == "rindex" and exp == "n:0"):
             pending = []
@@ -414,8 +481,18 @@ def gen_table(rng):
     return cols, types, rows
 
 
+KINDCHANGE = [0.5, 2.25, -0.25]       # reals that no integer column can hold
+
+
 def gen_row(rng, orc, types):
     r = [rng.choice(UNIVERSE[t]) for t in types]
+    if rng.random() < 0.05:                     # a real written into an integer column
+        ints = [j for j, t in enumerate(types) if t == "int"]
+        if ints:
+            j = rng.choice(ints)
+            r[j] = rng.choice(KINDCHANGE)
+            types[j] = "real"
+            return r
     if orc.rows and rng.random() < 0.45:      # meet an existing row on its key (or on everything)
         q = rng.choice(orc.rows)
         ks = orc.idx or [rng.choice(orc.cols)]
@@ -453,6 +530,8 @@ def gen_ops(rng, cols, types, rows, n):
             recent = (recent + [r])[-3:]
         elif x < 0.42:
             k = rng.choice([1, 2, 2, 3, 5])
+            if rng.random() < 0.04:             # a large batch, around the sizes where code paths switch
+                k = rng.choice(SIZES[:-1])
             rs = [gen_row(rng, orc, types) for _ in range(k)]
             if k >= 2 and rng.random() < 0.4:
                 for c in (orc.idx or orc.cols[:1]):
@@ -511,6 +590,86 @@ def gen_ops(rng, cols, types, rows, n):
             continue
         ops.append(op)
     return ops
+
+
+SIZES = [255, 256, 257, 511, 512, 513, 1023, 1024, 1025, 4096]
+FLAVOURS = {
+    "int": (["a", "b"], lambda i: [1000 + i, 7 * i]),
+    "mixed": (["a", "b", "c"], lambda i: [1000 + i, i / 4, "s%d" % i]),
+    "strkey": (["c", "a"], lambda i: ["s%d" % i, i]),
+}
+
+
+def threshold_history(rng, size, indexed, pending, read_between, tail, flavour):
+    """a large batch around a size threshold: [index] [pending small insert(s)] [read] BATCH
+    [one more insert] reads [index / drop index].  Batch rows mostly carry new keys, a few
+    repeat a key of the table, of the pending rows or of the batch itself."""
+    cols, mk = FLAVOURS[flavour]
+    rows = [mk(i) for i in (-3, -1, -2)]
+    orc = Oracle(cols, rows)
+    ops = []
+
+    def add(op):
+        if orc.apply(op) is None:
+            raise common.Infra("C19 threshold generator left the domain: %r" % (op[:1],))
+        ops.append(op)
+
+    if indexed:
+        add(("index", [cols[0]]))
+    if pending == "single":
+        add(("insert", mk(-7)))
+    elif pending == "batch":
+        add(("insertb", [mk(-8), mk(-9)]))
+    elif pending == "both":
+        add(("insert", mk(-7)))
+        add(("insertb", [mk(-8), mk(-9)]))
+    if read_between:
+        add(rng.choice([("count",), ("read", cols[0]), ("select",), ("sqlcount",)]))
+    batch = []
+    for i in range(size):
+        r = mk(i)
+        x = rng.random()
+        if x < 0.02 and batch:
+            r[0] = rng.choice(batch)[0]          # a key of this batch again
+        elif x < 0.03:
+            r[0] = mk(rng.choice([-3, -1, -7, -8]))[0]   # a key already there / pending
+        batch.append(r)
+    add(("insertb", batch))
+    if tail:
+        add(("insert", mk(size + 5)))
+    for op in rng.sample([("read", cols[-1]), ("select",), ("count",), ("sqlcol", cols[0]), ("read", cols[0])], 3):
+        add(op)
+    if orc.idx is not None and rng.random() < 0.5:
+        add(("rindex",))
+        add(("select",))
+    elif orc.idx is None and orc.unique_on([cols[0]]) and rng.random() < 0.5:
+        add(("index", [cols[0]]))
+        add(("read", cols[-1]))
+        add(("rindex",))
+        add(("select",))
+    return cols, rows, ops
+
+
+def threshold_histories(rng, quick):
+    combos = []
+    if quick:
+        # every size once in the situation where order can break (unindexed, something pending,
+        # no read in between), plus a seeded handful of the other situations
+        for size in SIZES:
+            combos.append((size, False, rng.choice(["single", "batch", "both"]), False, rng.random() < 0.7,
+                           rng.choice(["int", "mixed", "mixed", "strkey"])))
+        for _ in range(6):
+            combos.append((rng.choice(SIZES[:-1]), rng.random() < 0.6, rng.choice(["none", "single", "batch", "both"]),
+                           rng.random() < 0.5, rng.random() < 0.5, rng.choice(list(FLAVOURS))))
+    else:
+        for size in SIZES:
+            for indexed in (False, True):
+                for pending in ("none", "single", "batch", "both"):
+                    for read_between in (False, True):
+                        combos.append((size, indexed, pending, read_between, rng.random() < 0.5,
+                                       rng.choice(list(FLAVOURS))))
+    for c in combos:
+        yield c, threshold_history(rng, *c)
 
 
 def enumerated_histories(maxlen):
@@ -573,7 +732,8 @@ def run_corpus(ctx, klong, drv):
     if cdir.exists():
         for p in sorted(cdir.glob("*.json")):
             c = json.loads(p.read_text())
-            run_history(ctx, klong, drv, c["cols"], c["rows"], [_fix(o) for o in c["ops"]], "corpus:" + p.stem)
+            run_history(ctx, klong, drv, c["cols"], c["rows"], [_fix(o) for o in c["ops"]], "corpus:" + p.stem,
+                        dbname=c.get("dbname", "T"), twin=c.get("twin", False))
             ctx.count(("corpus", p.stem))
             ctx.bump("corpus")
 
@@ -584,7 +744,12 @@ def run(ctx):
     ctx.rule = ("seeded histories of 2..14 (quick) / 2..40 (thorough) operations (insert, batch insert, t?col, #t, "
                 ".schema, .index on 1-2 columns, re-insert of a key, .rindex, t,c,,v, select */count/column through "
                 ".db, and rejected requests) on tables of 1-4 integer/real/string columns with 0-6 initial rows; "
-                "plus every history of length <= 2 (quick) / <= 3 (thorough) over an 11-operation alphabet on a fixed table. "
+"plus every history of length <= 2 (quick) / <= 3 (thorough) over an 11-operation alphabet on a fixed table; "
+                "plus large batches of 255..4096 rows (sizes around 256/512/1024, and 4096) after pending inserts with and "
+                "without a read in between, on indexed and unindexed tables (quick: every size unindexed+pending, 6 seeded "
+                "others; thorough: sizes x indexed x pending kind x read-between = 160); a second table built from the same "
+                "column list and the list itself must stay unchanged; the table is registered in .db under varying names "
+                "(T, x, k, v, df, e, t); 5% of rows write a real into an integer column. "
                 "distinct = distinct histories; non-trivial = at least two operations")
     ctx.assumptions += [
         "an index is created only on columns whose values are unique at that moment (the property's own precondition)",
@@ -600,11 +765,19 @@ def run(ctx):
             cols, types, rows = gen_table(ctx.rng)
             n = ctx.rng.randrange(2, 15 if quick else 41)
             ops = gen_ops(ctx.rng, cols, types, rows, n)
-            ok = run_history(ctx, klong, drv, cols, rows, ops, "seeded", early_db=ctx.rng.random() < 0.3)
+            ok = run_history(ctx, klong, drv, cols, rows, ops, "seeded", early_db=ctx.rng.random() < 0.3,
+                             dbname=ctx.rng.choice(DBNAMES), twin=ctx.rng.random() < 0.3)
             ctx.count(("seeded", cols, repr(rows), repr(ops)), nontrivial=len(ops) >= 2)
             ctx.bump("types:" + "+".join(sorted(set(types))))
             if ok and s < 4:
                 ctx.sample(dict(kind="table", cols=cols, rows=rows, ops=[list(o) for o in ops][:8]))
+        for combo, (cols, rows, ops) in threshold_histories(ctx.rng, quick):
+            run_history(ctx, klong, drv, cols, rows, ops, "threshold", early_db=ctx.rng.random() < 0.3,
+                        dbname=ctx.rng.choice(DBNAMES))
+            ctx.count(("threshold", combo, len(ops)))
+            ctx.bump("threshold:%s:%s" % ("indexed" if combo[1] else "unindexed",
+                                          "pending" if combo[2] != "none" and not combo[3] else "flushed"))
+            ctx.bump("batch-size:%d" % combo[0])
         for cols, rows, ops in enumerated_histories(2 if quick else 3):
             run_history(ctx, klong, drv, cols, rows, ops, "enumerated", early_db=False)
             ctx.count(("enum", repr(ops)), nontrivial=len(ops) >= 2)
@@ -619,7 +792,8 @@ def replay(ctx, case):
     c = case.get("case", case)
     try:
         klong = _interp()
-        run_history(ctx, klong, drv, c["cols"], c["rows"], [_fix(o) for o in c["ops"]], "replay")
+        run_history(ctx, klong, drv, c["cols"], c["rows"], [_fix(o) for o in c["ops"]], "replay",
+                    dbname=c.get("dbname", "T"), twin=c.get("twin", False))
         ctx.count(("replay", repr(c["ops"])))
     finally:
         if drv:
